@@ -717,7 +717,7 @@ def ob_pbkdf2(algo, rounds, lps, lss, readsets):
                     return env
                 light = rounds <= 10
                 runs.append(sym_run(lambda: _pbkdf2_path(algo, lp, ls, rounds, reads), expect_classes=["ok"], gen_env=gen if light else None,
-                                    native=native if light else None, n_val=3, timeout_ms=60000))
+                                    native=native if light else None, n_val=3, timeout_ms=60000, max_violations=4, max_paths=400))
     m = merge_runs(runs)
     m["sample"] = {"algo": algo, "rounds": rounds, "passphrase_lengths": list(lps), "salt_lengths": list(lss), "reads": [list(r) for r in readsets]}
     return m
@@ -733,6 +733,28 @@ def replay_pbkdf2(w):
     except Exception as ex:
         return {"violated": True, "observed": f"PBKDF2({P.hex()}, {S.hex()}, {c}).read{reads} raised {ex!r}"}
     want = _hashlib.pbkdf2_hmac(algo, P, S, c, sum(reads))
+    if got == want and (P or S):
+        # the model's HMAC values are uninterpreted; witness classes that depend on hash *values* (a block T_i that starts with zero
+        # bytes) are rebuilt with the real HMAC by stepping the passphrase (or the salt): about 256 trials per hit
+        hlen = getattr(_hashlib, algo)().digest_size
+        total = max(sum(reads), 2 * hlen)
+        hits = 0
+        for ctr in range(6000):
+            cb = ctr.to_bytes(4, "big")
+            P2, S2 = (cb[-len(P):].rjust(len(P), b"\x01"), S) if P else (P, cb[-len(S):].rjust(len(S), b"\x01"))
+            ref = _hashlib.pbkdf2_hmac(algo, P2, S2, c, total)
+            if not any(ref[i] == 0 for i in range(0, total, hlen)):
+                continue
+            hits += 1
+            try:
+                g2 = pbkdf2.PBKDF2(P2, S2, iterations=c, **kw).read(total)
+            except Exception as ex:
+                return {"violated": True, "observed": f"PBKDF2({P2.hex()}, {S2.hex()}, {c}).read({total}) raised {ex!r}"}
+            if g2 != ref:
+                return {"violated": True, "observed": f"PBKDF2-HMAC-{algo}(P={P2.hex()}, S={S2.hex()}, c={c}), a block starts with a zero byte: vendored "
+                                                      f"{g2.hex()[:40]}.. hashlib.pbkdf2_hmac {ref.hex()[:40]}.."}
+            if hits >= 4:
+                break
     return {"violated": got != want, "observed": f"PBKDF2-HMAC-{algo}(P={P.hex()}, S={S.hex()}, c={c}) reads {reads}: vendored {got.hex()[:48]}.. "
                                                  f"hashlib.pbkdf2_hmac {want.hex()[:48]}.."}
 
